@@ -10,6 +10,7 @@ import (
 	"strings"
 	"sync"
 	"syscall"
+	"unicode/utf8"
 
 	"github.com/enbility/go-avahi"
 	"github.com/enbility/ship-go/api"
@@ -89,6 +90,10 @@ type MdnsManager struct {
 func shortenString(s string, maxLen int) string {
 	if len(s) <= maxLen {
 		return s
+	}
+	// do not cut a multi byte UTF-8 character into pieces
+	for maxLen > 0 && !utf8.RuneStart(s[maxLen]) {
+		maxLen--
 	}
 	return s[:maxLen]
 }
